@@ -67,7 +67,7 @@ func genCase(t *rapid.T) Case {
 	n := rapid.IntRange(2, 18).Draw(t, "n")
 	for i := 0; i < n; i++ {
 		op := Op{Conn: rapid.IntRange(0, c.Conns-1).Draw(t, "conn")}
-		op.Kind = rapid.SampledFrom([]string{"frame", "frame", "frame", "frame", "auth", "auth", "close", "goodauth", "probecall", "probecall"}).Draw(t, "kind")
+		op.Kind = rapid.SampledFrom([]string{"frame", "frame", "frame", "frame", "auth", "auth", "close", "goodauth", "probecall", "probecall", "shiftedauth"}).Draw(t, "kind")
 		op.Type = rapid.OneOf(rapid.Uint8Range(1, 8), rapid.Uint8Range(1, 8), rapid.Uint8Range(1, 8), rapid.Uint8()).Draw(t, "type")
 		op.Service = rapid.SampledFrom([]string{"zero", "directory", "probe", "probe", "probe", "random"}).Draw(t, "service")
 		op.Object = rapid.SampledFrom([]uint32{1, 1, 0, 2, 0xffffffff}).Draw(t, "object")
@@ -83,6 +83,14 @@ func genCase(t *rapid.T) Case {
 		case "goodauth":
 			op.Kind = "auth"
 			op.Cred = Cred{User: "right", Token: "right", Forged: rapid.SampledFrom([]int{0, 1, 3}).Draw(t, "gforged")}
+		case "shiftedauth":
+			// an accepted pair with the boundary between user and token moved:
+			// the same characters, another user, another token
+			op.Kind = "auth"
+			op.Cred = Cred{User: "shifted", Token: "shifted"}
+			if rapid.Bool().Draw(t, "allintoken") {
+				op.Cred = Cred{User: "empty", Token: "both"}
+			}
 		case "probecall":
 			op.Kind, op.Type, op.Service, op.Object, op.Action, op.Payload = "frame", 1, "probe", 1, 100, "tag"
 			if rapid.IntRange(0, 3).Draw(t, "aspost") == 0 {
@@ -112,6 +120,12 @@ func capmap(c Cred, conn int) (payload []byte, user, token string, typed bool) {
 	case "wrong":
 		user = "mallory"
 		entries["auth_user"] = netkit.Str(user)
+	case "shifted":
+		user = userOf(conn) + passOf(conn)[:1]
+		entries["auth_user"] = netkit.Str(user)
+	case "empty":
+		user = ""
+		entries["auth_user"] = netkit.Str(user)
 	case "int":
 		entries["auth_user"] = ref.Dyn{T: ref.Scalar(ref.KInt32), V: int32(7)}
 		typed = false
@@ -122,6 +136,12 @@ func capmap(c Cred, conn int) (payload []byte, user, token string, typed bool) {
 		entries["auth_token"] = netkit.Str(token)
 	case "wrong":
 		token = "letmein"
+		entries["auth_token"] = netkit.Str(token)
+	case "shifted":
+		token = passOf(conn)[1:]
+		entries["auth_token"] = netkit.Str(token)
+	case "both":
+		token = userOf(conn) + passOf(conn)
 		entries["auth_token"] = netkit.Str(token)
 	case "int":
 		entries["auth_token"] = ref.Dyn{T: ref.Scalar(ref.KInt32), V: int32(7)}
